@@ -15,12 +15,16 @@ NoneS == "~"
 NoD == [m |-> 0, s |-> -1]                 \* absent number
 
 \* row: [day, payee, amt (signed effect on the statement: credit > 0, debit < 0), rate |-> [r, inv] or NoRate, sec (unsigned secondary amount or NoD), note,
-\*       chg (what the charge column shows: NoD = empty cell, else a fee that is part of amt)]
+\*       chg (what the charge column shows: NoD = empty cell, else a fee that is part of amt),
+\*       cmdt (what the commodity column shows; the primary commodity when there is no such column)]
 \* cfg: [atype, cols ("amount"|"creditdebit"), layout, delim, skip, datefmt, order ("old_to_new"|"new_to_old"), balance (BOOLEAN),
 \*       conv ("none"|"extract_pos"|"compute_pos"|"extract_pop"|"compute_pop"|"disabled"), ruleconv ("none"|"disabled"|"commodity"),
-\*       charge ("none"|"column")]
+\*       charge ("none"|"column"), cmdtcol (BOOLEAN: a per-row commodity column, as multi-currency accounts have)]
 NoRate == [r |-> NoD, inv |-> NoD]
 Primary == "USD"
+OtherCommodity == "CHF"              \* the second currency of a multi-currency account
+\* the commodity a row is booked in: its commodity column, else the configured primary commodity
+RowCommodity(cfg, row) == IF cfg.cmdtcol THEN row.cmdt ELSE Primary
 StatementSecondary == "EUR"          \* what the statement's secondary-commodity column shows
 RuleSecondary == "JPY"                \* what a rule's conversion.commodity says
 SecondaryOf(cfg) == IF cfg.ruleconv = "commodity" THEN RuleSecondary ELSE StatementSecondary
@@ -60,7 +64,7 @@ Opposite(v, amt) == IF DecSign(amt) > 0 THEN DecNeg(DecAbs(v)) ELSE DecAbs(v)
 
 NoCost == [c |-> NoneS, v |-> NoD]
 SrcPosting(cfg, row, running) ==
-  [account |-> Account, amt |-> row.amt, c |-> Primary,
+  [account |-> Account, amt |-> row.amt, c |-> RowCommodity(cfg, row),
    \* price_of_primary: the rate prices the primary commodity, so it sits on the primary posting
    cost |-> IF Converts(cfg, row) /\ PriceOfPrimary(cfg) THEN [c |-> SecondaryOf(cfg), v |-> row.rate.r] ELSE NoCost,
    balance |-> IF cfg.balance THEN running ELSE NoD, payee |-> NoneS]
@@ -76,7 +80,7 @@ DestPosting(cfg, row) ==
         cost |-> IF PriceOfPrimary(cfg) THEN NoCost ELSE [c |-> Primary, v |-> row.rate.r],
         balance |-> NoD, payee |-> NoneS]
   ELSE [account |-> IF DecSign(row.amt) > 0 THEN "Income:Unknown" ELSE "Expenses:Unknown",
-        amt |-> DecNeg(Principal(cfg, row)), c |-> Primary, cost |-> NoCost, balance |-> NoD, payee |-> NoneS]
+        amt |-> DecNeg(Principal(cfg, row)), c |-> RowCommodity(cfg, row), cost |-> NoCost, balance |-> NoD, payee |-> NoneS]
 \* positive amounts list the account first, negative ones the counter-account first; a charge sits between them
 ExpectedTxn(cfg, row, running) ==
   LET chg == IF HasCharge(cfg, row) THEN <<ChargePosting(cfg, row)>> ELSE <<>> IN
@@ -84,10 +88,18 @@ ExpectedTxn(cfg, row, running) ==
    posts |-> IF DecSign(row.amt) > 0 THEN <<SrcPosting(cfg, row, running)>> \o chg \o <<DestPosting(cfg, row)>>
              ELSE <<DestPosting(cfg, row)>> \o chg \o <<SrcPosting(cfg, row, running)>>]
 
-\* rows are given oldest first; the running balance column accumulates from the opening balance
+\* rows are given oldest first; the running balance column accumulates from the opening balance - per commodity
+\* when rows carry their own: a row's balance cell is the balance in that row's commodity (the opening balance
+\* is in the primary commodity, the account holds nothing else beforehand)
+RECURSIVE RunningIn(_, _, _, _, _)
+RunningIn(cfg, rows, k, opening, c) ==
+  IF k = 0 THEN (IF c = Primary THEN opening ELSE D(0, 0))
+  ELSE LET prev == RunningIn(cfg, rows, k - 1, opening, c) IN
+       IF RowCommodity(cfg, rows[k]) = c THEN DecAdd(prev, rows[k].amt) ELSE prev
+RunningAtC(cfg, rows, k, opening) == RunningIn(cfg, rows, k, opening, RowCommodity(cfg, rows[k]))
 RECURSIVE RunningAt(_, _, _)
 RunningAt(rows, k, opening) == IF k = 0 THEN opening ELSE DecAdd(RunningAt(rows, k - 1, opening), rows[k].amt)
-Expected(cfg, rows, opening) == [k \in 1..Len(rows) |-> ExpectedTxn(cfg, rows[k], RunningAt(rows, k, opening))]
+Expected(cfg, rows, opening) == [k \in 1..Len(rows) |-> ExpectedTxn(cfg, rows[k], RunningAtC(cfg, rows, k, opening))]
 \* the order of lines in the file
 FileOrder(cfg, rows) == IF cfg.order = "new_to_old" THEN [k \in 1..Len(rows) |-> rows[Len(rows) + 1 - k]] ELSE rows
 
@@ -105,7 +117,9 @@ AssetConsistentAccepted(cfg, rows, opening) ==
   LET e == Expected(cfg, rows, opening) IN
   /\ \A k \in 1..Len(e) : TxnBalanced(e[k])
   /\ \A k \in 1..Len(e) : \A i \in 1..Len(e[k].posts) :
-        (e[k].posts[i].account = Account /\ cfg.balance) => e[k].posts[i].balance = RunningAt(rows, k, opening)
+        (e[k].posts[i].account = Account /\ cfg.balance) => e[k].posts[i].balance = RunningAtC(cfg, rows, k, opening)
+  \* without a commodity column there is one running balance
+  /\ ~cfg.cmdtcol => \A k \in 1..Len(rows) : RunningAtC(cfg, rows, k, opening) = RunningAt(rows, k, opening)
 RateOnPricedCommodity(cfg, rows, opening) ==
   \A k \in 1..Len(rows) : \A i \in 1..Len(Expected(cfg, rows, opening)[k].posts) :
      LET p == Expected(cfg, rows, opening)[k].posts[i] IN p.cost # NoCost => p.cost.c # p.c
